@@ -5,6 +5,7 @@
 //!   MPR|RPR, MPX|RPX                          the same with the tree built from the borrowing variants (ArrayRef, StructRef,
 //!                                             DictRef, StringRef, ObjectPathRef, SignatureRef) / alternating owned and borrowing
 //!   MV|MVR|MVX <bo> <prefix-count> <variant>  a params::Variant pushed through the typed API (push_param(&params::Variant{sig, value}))
+//!   RV|RVR|RVX <bo> <prefix-count> <variant>  the same, then read back with get::<params::Variant>()
 //!   VR <bo> <offset> <sig> <hex>              validate_raw::validate_marshalled for every complete type of <sig> in turn
 //!   UP <bo> <offset> <nfds> <sig> <hex>       unmarshal_with_sig (dynamic decoder) for every complete type of <sig>
 //!   BV|BA|BB ...                              glue on a body built with from_parts: validate(), unmarshall_all(), unmarshal_body (see below)
@@ -33,8 +34,9 @@ fn eval(line: &str) -> String {
                 None => out,
             }
         }
-        "MV" | "MVR" | "MVX" => {
-            // a params::Variant pushed through the TYPED API (impl Marshal for params::Variant): the value must be a variant
+        "MV" | "MVR" | "MVX" | "RV" | "RVR" | "RVX" => {
+            // a params::Variant pushed through the TYPED API (impl Marshal for params::Variant): the value must be a variant.
+            // RV..: then read back through the typed API as well (impl Unmarshal for params::Variant), output as RT/RP
             let flavour = Flavour::of_op(op);
             let byteorder = rbverif::wirelib::bo(&mut a);
             let prefix = a.num();
@@ -51,8 +53,38 @@ fn eval(line: &str) -> String {
                 msg.body.push_param((i as u8).wrapping_mul(37).wrapping_add(1)).unwrap();
             }
             let r = msg.body.push_param(&*variant);
-            let res = if r.is_ok() { "ok" } else { "err" };
-            format!("{} sig={} buf={} nfds={} val={}", res, hex(msg.get_sig().as_bytes()), hex(msg.get_buf()), msg.body.get_fds().len(), ordered.join(" "))
+            if op.starts_with("MV") {
+                let res = if r.is_ok() { "ok" } else { "err" };
+                return format!("{} sig={} buf={} nfds={} val={}", res, hex(msg.get_sig().as_bytes()), hex(msg.get_buf()), msg.body.get_fds().len(), ordered.join(" "));
+            }
+            if r.is_err() {
+                return "pusherr".to_string();
+            }
+            msg.body.push_param(0xA5u8).unwrap();
+            let valid = msg.body.validate().is_ok();
+            let mut parser = msg.body.parser();
+            for _ in 0..prefix {
+                if parser.get::<u8>().is_err() {
+                    return "prefixerr".to_string();
+                }
+            }
+            let got = parser.get::<rustbus::params::Variant>();
+            let mut out = Vec::new();
+            let res = match got {
+                Ok(x) => {
+                    param_tok(&rustbus::params::Param::Container(rustbus::params::Container::Variant(Box::new(x))), &mut out, true);
+                    "ok"
+                }
+                Err(_) => "err",
+            };
+            let trailer = match parser.get::<u8>() {
+                Ok(0xA5) => "trailer=ok",
+                Ok(_) => "trailer=wrong",
+                Err(_) => "trailer=err",
+            };
+            let mut orig = Vec::new();
+            param_tok(&rustbus::params::Param::Container(rustbus::params::Container::Variant(variant)), &mut orig, true);
+            format!("{} validate={} {} left={} same={} val={}", res, valid, trailer, parser.sigs_left(), orig == out, out.join(" "))
         }
         "MP" | "RP" | "MPR" | "RPR" | "MPX" | "RPX" => {
             // ..R: the tree is built from the borrowing variants (ArrayRef, StructRef, DictRef, StringRef, ..), ..X: alternating
